@@ -18,6 +18,8 @@ namespace {
 //   1: start buckets spread over the whole table (any slot can be the first occupied one)
 //   2: start buckets only in the upper half of a 32/64-bucket table, few tags
 //   3: libstdc++-like identity hash
+//   4: every key starts probing at the LAST bucket of the table (windows wrap into the mirrored control bytes)
+//   5: start buckets only in the last group of the table, many distinct tags
 int g_hash_mode = 0;
 struct WeakHash {
   static size_t mix(uint64_t k) {
@@ -27,6 +29,8 @@ struct WeakHash {
       case 1: return (size_t)(((k * 0x9E3779B97F4A7C15ull) >> 40) << 3 | (k & 7));
       case 2: return (size_t)(((16 + (k * 5) % 16) << 7) | ((k >> 4) & 3));
       case 3: return (size_t)k * 128 + (size_t)(k % 5);
+      case 4: return (size_t)((~(uint64_t)0 << 7) | (k % 101));
+      case 5: return (size_t)(((~(uint64_t)0 << 11) | (((k * 3) & 15) << 7)) | (k % 113));
     }
   }
   size_t operator()(uint64_t k) const noexcept { return mix(k); }
@@ -409,8 +413,8 @@ extern "C" int LLVMFuzzerTestOneInput(const uint8_t* data, size_t size) {
   std::string desc;
   bool nontrivial = false;
   uint8_t head = d.u8();
-  g_hash_mode = (head >> 4) & 3;
-  static const char* hm[] = {"hash=clustered ", "hash=spread ", "hash=upper-half ", "hash=identity "};
+  g_hash_mode = (head >> 4) % 6;
+  static const char* hm[] = {"hash=clustered ", "hash=spread ", "hash=upper-half ", "hash=identity ", "hash=last-bucket ", "hash=last-group "};
   desc += hm[g_hash_mode];
   vfz::label(hm[g_hash_mode]);
   switch ((head & 15) % 6) {
